@@ -125,6 +125,15 @@ def step (cfg : Cfg) (s : St) (op : Op) : St :=
 
 def run (cfg : Cfg) (s : St) (ops : List Op) : St := ops.foldl (step cfg) s
 
+/-- tailing is stopped: the stream reads what is left to read and flushes its reader -/
+def stop (s : St) : St :=
+  match s.stream with
+  | none => s
+  | some st =>
+    match fileOf s st.inode with
+    | none => { s with delivered := s.delivered ++ finish st.lr, stream := none }
+    | some f => { s with delivered := s.delivered ++ (readAvail st f).1 ++ finish (readAvail st f).2.lr, stream := none }
+
 /-- tailing begins on an existing empty file -/
 def start : St := patternPoll { path := some ⟨0, []⟩ }
 
@@ -156,5 +165,8 @@ def Spec.step (sp : Spec) : Op → Spec
   | .poll => sp
 
 def Spec.run (ops : List Op) : Spec := ops.foldl Spec.step {}
+
+/-- tailing stopped: the generation being tailed ends, its fragment is delivered -/
+def Spec.stop (sp : Spec) : Spec := if sp.tailing then flush sp else sp
 
 end MtailVerif.FileStream
